@@ -146,7 +146,7 @@ VERUS_UNITS = {
     },
     'world_reactors': {
         'template': 'world_reactors.rs.tpl',
-        'owners': [(r'Reactor::(add|add_starting_triggers|remove|run)$', ['C16', 'C06']), (r'EntityReactor::(add|remove|system)$', ['C16', 'C06']), (r'EntityWorldLocal::new$', ['C16'])],
+        'owners': [(r'Reactor::(add|add_starting_triggers)$', ['C16', 'C07']), (r'Reactor::(remove|run)$', ['C16', 'C06']), (r'EntityReactor::add$', ['C16', 'C07']), (r'EntityReactor::(remove|system)$', ['C16', 'C06']), (r'EntityWorldLocal::new$', ['C16'])],
         'negctl': [
             ('sys: self.inner->Some_0.sys_command, mode: ReactorMode::Persistent }),', 'sys: self.inner->Some_0.sys_command, mode: ReactorMode::Cleanup }),', 'EntityReactor::add'),
         ],
